@@ -30,6 +30,12 @@ pub open spec fn window(off: usize, w: nat, data: &[u8]) -> Seq<u8> { data@.subr
 pub open spec fn fld(little: bool, w: Seq<u8>, off: int, n: int) -> nat { uval(little, w.subrange(off, off + n)) }
 pub open spec fn sfld(little: bool, w: Seq<u8>, off: int, n: int) -> int { sval(little, w.subrange(off, off + n)) }
 
+// a field read inside a sub-buffer is the field read at the shifted offset of the whole buffer
+pub proof fn lemma_fld_sub(l: bool, d: Seq<u8>, s: int, e: int, off: int, w: int)
+    requires 0 <= s <= e <= d.len(), 0 <= off, 0 <= w, off + w <= e - s
+    ensures fld(l, d.subrange(s, e), off, w) == fld(l, d, s + off, w), sfld(l, d.subrange(s, e), off, w) == sfld(l, d, s + off, w)
+{ assert(d.subrange(s, e).subrange(off, off + w) =~= d.subrange(s + off, s + off + w)); }
+
 // ---- A2: T::from_{le,be}_bytes (rule R2 routes the calls through these shims; contracts proved by Kani)
 #[verifier::external_body]
 pub fn shim_u8_from_le_bytes(b: [u8; 1]) -> (r: u8) ensures r as nat == le_val(b@) { u8::from_le_bytes(b) }
